@@ -38,6 +38,86 @@ def gen_history(rng, n, outcomes="a", maxlen=14):
     return ops
 
 
+NOANS = ["l", "x"]          # outcomes after which no ACK frame reaches the client
+
+
+def lost_run_cases(rng, count):
+    """runs of 3..6 requests in a row (divider / enable / start / stop, in one connection) that get no answer at all,
+    then a request the device rejects or does not answer, then acknowledged writes: fixed lines first, then random"""
+    P3 = ll.plain_chans(3)
+    for tail in ("n22", "l", "x", "n-2147483648", "n1"):
+        # divider-capable device: two requests per write
+        yield f"cfg run 3 000 0,0,0 e1;v5:2;W:l:l;W:l:{tail};W:a:a;W:a:a", "lost-run"
+        yield f"cfg run 3 010 0,0,9 e0;v4:1;W:l:x;W:l:l;W:{tail}:a;d1;W:a:a", "lost-run"
+        # no divider support: one request per write
+        yield f"cfg run 2 000 0,0,0 e1;W:a:l;W:a:l;e2;W:a:x;W:a:{tail};W:a:a", "lost-run"
+        yield ll.mk_line("nx", 3, [0, 0, 0], [0, 0, 0], 0, 0, P3,
+                         ["C", "e1!~a,l,l", f"v5:2!~a,l,{tail}", "W", "W", "X"]), "lost-run"
+        yield ll.mk_line("nx", 3, [0, 1, 0], [0, 0, 0], 0, 0, P3,
+                         ["C", "S~l,l,l", f"e0!~a,{tail},{tail}", "W", f"T~{tail},a,a", "W", "X"]), "lost-run"
+        yield ll.mk_line("comm", 3, [0, 1, 0], [0, 0, 0], 0, 0, P3,
+                         ["C", "S~l,a,a", "T~l,a,a", "S~x,a,a", f"T~{tail},a,a", "e0", f"W~a,{tail},a", "W", "T", "X"]), "lost-run"
+        yield ll.mk_line("comm", 3, [0, 0, 0], [0, 0, 0], 0, 0, P3,
+                         ["C", "e2", "W~a,l,l", "S~l,a,a", f"S~{tail},a,a", f"T~{tail},a,a", "v3:0", "W", "X"]), "lost-run"
+    for it in range(count):
+        n = rng.choice([1, 2, 3, 4, 8])
+        k = rng.randrange(3, 7)
+        tail = rng.choice(["l", "x"] + CODES + CODES)
+        en = [rng.random() < 0.4 for _ in range(n)]
+        div = [rng.choice([0, 0, 3, 200]) for _ in range(n)]
+
+        def setter():
+            c = rng.randrange(n)
+            return rng.choice([f"e{c}", f"d{c}", f"v{rng.choice([0, 1, 7, 255])}:{c}", "N", "D"])
+        if it % 3 == 0:
+            flags = rng.choice([3, 3, 2])
+            per = 2 if flags & 1 else 1
+            seq = [rng.choice(NOANS) for _ in range(k)] + [tail]
+            if len(seq) % per:
+                seq.append("a")
+            ops = [setter(), setter()]
+            if rng.random() < 0.5:
+                ops.append("W:a:a")
+            i = 0
+            while i < len(seq):
+                od, oe = (seq[i], seq[i + 1]) if per == 2 else ("a", seq[i])
+                i += per
+                ops.append(f"W:{od}:{oe}")
+                if rng.random() < 0.4:
+                    ops.append(setter())
+            ops += ["W:a:a", "W:a:a"]
+            yield f"cfg run {flags} {ll.bits(en)} {ll.ints(div)} {';'.join(ops)}", "lost-run"
+        else:
+            mode = "nx" if it % 3 == 1 else "comm"
+            calls = ["C"]
+            if rng.random() < 0.5:
+                calls.append(f"e{rng.randrange(n)}" + ("!" if mode == "nx" else ""))
+            left = k
+            while left > 0:
+                r = rng.random()
+                lo = lambda: rng.choice(NOANS)      # noqa: E731
+                if r < 0.35 and mode == "comm":
+                    calls.append(rng.choice("ST") + f"~{lo()},a,a")
+                    left -= 1
+                elif r < 0.5 and mode == "nx":
+                    # the high-level start / stop: issues a request only when the handler's stream flag changes
+                    calls.append(rng.choice("ST") + f"~{lo()},{lo()},{lo()}")
+                    left -= 1
+                else:
+                    c = setter()
+                    if mode == "nx":
+                        calls.append(c + f"!~a,{lo()},{lo()}")
+                    else:
+                        calls += [c, f"W~a,{lo()},{lo()}"]
+                    left -= 2
+            calls.append(rng.choice([f"W~a,{tail},{tail}", f"W~a,a,{tail}", f"W~a,{tail},a"] +
+                                    ([f"S~{tail},a,a", f"T~{tail},a,a"] if mode == "comm" else [f"X~{tail},{tail},{tail}"])))
+            if calls[-1].startswith("X"):
+                calls.append("C")
+            calls += [setter() + ("!" if mode == "nx" else ""), "W", "W", "X"]
+            yield ll.mk_line(mode, 3, en, div, rng.randrange(2), 0, ll.plain_chans(n), calls), "lost-run"
+
+
 def gen_life(rng, n, mode, length):
     """a session on an ACK-supporting device: in-range channel ids, every request answered at random"""
     nx = mode == "nx"
@@ -79,7 +159,9 @@ class C11(Prop):
     id = "C11"
     lean_module = "NxsModel.Props.C11"
     rule = ("random configuration histories (enable/disable/divider/default/all + writes, 1..16 calls, channel counts 1..64 and 100..255, half of them through the NxscopeHandler wrappers, rx padding and a stream left running chosen per line) with every set request answered by ack / nack r / applied-but-ACK-lost / "
-            "lost (per-request scripts; r over small, byte-boundary, 16-bit-boundary and extreme 32-bit codes of both signs), "
+            "lost (per-request scripts; r over small, byte-boundary, 16-bit-boundary and extreme 32-bit codes of both signs incl. "
+            "INT_MIN / INT_MAX on configuration writes and on start / stop at both handler levels; runs of 3..6 requests in a row "
+            "without any answer followed by a rejected / unanswered request, as configuration histories and as sessions), "
             "on ACK-supporting devices (and the no-ACK variants as a control); plus sessions on the NxscopeHandler (wrappers "
             "with writenow, stream_start / stream_stop, disconnect) and on a bare CommHandler (stream_start / stream_stop "
             "return values) in which every stream start/stop, divider and enable request is answered at random; compared "
@@ -142,6 +224,8 @@ class C11(Prop):
         for o in ("n5", "l"):
             yield ll.mk_line("nx", 3, [0] * 6, [0] * 6, 0, 0, ll.plain_chans(6),
                              ["C", "e3!", f"X~a,a,{o}", "C", f"e5!~a,a,{o}", "W", "X"]), "left-enabled"
+        # several requests in a row without any answer, then a rejected / unanswered one
+        yield from lost_run_cases(rng, 200 if T else 36)
         for it in range(500 if T else 90):
             n = rng.choice([1, 2, 3, 4, 5, 8])
             mode = "nx" if it % 3 else "comm"
@@ -202,6 +286,14 @@ class C11(Prop):
         for op, st in zip(ops, out):
             f = dict(kv.split("=", 1) for kv in st.split(";"))
             if f["e"] != "-":
+                if op.startswith("W:") and n > 0:
+                    # the write itself raised: "the call returns within a bounded time" (a setter that raises on a bad
+                    # id / value issues no request and is not this property's subject)
+                    _, od, oe = op.split(":")
+                    return {"key": "call-raises", "what": f"channels_write() with the divider request answered '{od}' and the enable "
+                            f"request answered '{oe}' raised {f['e']} instead of returning",
+                            "expected": "the call returns (client's view stays at the last acknowledged state)",
+                            "observed": f"raises {f['e']}; state after the call: {st}", "history": ops}
                 return None            # a raising setter (bad id / value): not this property's subject
             now_en, now_div = f["now"].split("/")
             cp_en, cp_div = f["cp"].split("/")
@@ -283,9 +375,28 @@ class C11(Prop):
                              ll.plain_chans(n), gen_life(rng, n, mode, rng.randrange(3, 12))), "search"
 
 
+def issues_requests(c, wn, n):
+    """the call (token without its `!`) sends requests to a connected device and has well-formed arguments"""
+    if c in ("W", "S", "T", "X"):
+        return True
+    if not wn:
+        return False
+    if c in ("D", "N"):
+        return True
+    try:
+        if c[0] in "ed":
+            return all(0 <= int(x) < n for x in c[1:].split(","))
+        if c[0] == "v":
+            v, cs = c[1:].split(":")
+            return 0 <= int(v) <= 255 and all(0 <= int(x) < n for x in cs.split(","))
+    except ValueError:
+        pass
+    return False
+
+
 def life_oracle(p, burst=None):
     """the property on a life-cycle session (ACK-supporting device): every call returns in bounded time; a start/stop
-    request returns the acknowledgement it got; what the client reports is the last state the device acknowledged;
+    request returns the acknowledgement it got (a call whose request failed returns, it does not raise); what the client reports is the last state the device acknowledged;
     an acknowledged write makes device = requested = reported"""
     if not p["flags"] & 2:
         return None
@@ -321,6 +432,12 @@ def life_oracle(p, burst=None):
             return {"key": "unbounded-wait", "what": f"call {call} waited {wait:.2f} s for the device and {r['join']:.2f} s for its threads",
                     "expected": f"<= {bound:.0f} s (10 x the largest time-out the source uses, at least 10 s)", "observed": f"{r['dt']:.2f}", "history": hist}
         if r["res"] not in ("ok",) and not r["res"].startswith("ack:"):
+            if connected and r["res"] != "none" and issues_requests(c, wn, n) and r["ans"] and any(o != "a" for o in r["ans"]):
+                # a call whose request the device rejected / did not answer must return
+                return {"key": "call-raises", "what": f"call {i} ({call}) with its start/stop, divider, enable requests answered "
+                        f"{','.join(r['ans'])} raised {r['res']} instead of returning",
+                        "expected": "the call returns (a failed acknowledgement is reported by value / leaves the view unchanged)",
+                        "observed": f"raises {r['res']}; requests the device saw during the call: {[k for k, _ in r['reqs']]}", "history": hist}
             return final           # a raising call (out-of-range id, call on a disconnected handler): outside this oracle
         if c == "C":
             if not connected:
